@@ -6,6 +6,8 @@ import (
 	"encoding/json"
 	"errors"
 	"fmt"
+	jbytes "github.com/jsightapi/jsight-schema-core/bytes"
+	jjson "github.com/jsightapi/jsight-schema-core/json"
 	"io"
 	"os"
 	"path/filepath"
@@ -49,6 +51,9 @@ func instantiate(in Input) Input {
 		return in
 	}
 	n := atomic.AddInt64(&freshCounter, 1)
+	if in.Project == nil {
+		return Input{Kind: in.Kind, Text: strings.ReplaceAll(in.Text, "#N#", fmt.Sprint(n))}
+	}
 	p := *in.Project
 	p.Root = strings.ReplaceAll(p.Root, "#N#", fmt.Sprint(n))
 	return Input{Kind: in.Kind, Project: &p}
@@ -59,6 +64,7 @@ var ops = map[string][]string{
 	"enum":    {"check", "values", "len", "ast"},
 	"regex":   {"check", "pattern", "example", "openapi"},
 	"doc":     {"check", "len", "lexemes"},
+	"number":  {"string", "guess", "compare"},
 }
 
 type object struct {
@@ -119,6 +125,22 @@ func perform(o *object, op string) (out string) {
 		b, err := openapi.NewSchemaObject(o.s).MarshalJSON()
 		runtime.Gosched()
 		return fmt.Sprintf("%s,%v", b, err)
+	case "number:string":
+		n, err := jjson.NewNumber(jbytes.NewBytes(o.in.Text))
+		if err != nil {
+			return errText(err)
+		}
+		return n.String()
+	case "number:guess":
+		t, err := schema.GuessSchemaType([]byte(o.in.Text))
+		return fmt.Sprintf("%s,%s", t, errText(err))
+	case "number:compare":
+		a, err := jjson.NewNumber(jbytes.NewBytes(o.in.Text))
+		b, err2 := jjson.NewNumber(jbytes.NewBytes("12.5e1"))
+		if err != nil || err2 != nil {
+			return errText(err) + errText(err2)
+		}
+		return fmt.Sprint(a.Cmp(b), b.Cmp(a), a.Equal(a))
 	case "enum:check":
 		return errText(o.e.Check())
 	case "enum:values":
@@ -266,6 +288,10 @@ func corpusInputs() ([]Input, []map[string]string) {
 		// regex rules and strings never seen before (a fresh text at every use)
 		for i := 0; i < 4; i++ {
 			special(Input{Kind: "project", Fresh: true, Project: &sut.Project{Root: fmt.Sprintf("{\n  \"id\": \"g#N#i%d\", // {regex: \"^g#N#i%d$\"}\n  \"e\": \"e#N#\" // {enum: [\"e#N#\", \"f#N#\"]}\n}", i, i)}})
+		}
+		// numbers in exponent form never seen before (and a few fixed ones)
+		for _, tx := range []string{"1.5e#N#", "-#N#E-3", "0.#N#e+2", "#N#e0", "1e5", "2.50E2", "1e", "01"} {
+			special(Input{Kind: "number", Fresh: strings.Contains(tx, "#N#"), Text: tx})
 		}
 		// rejected with a position deep inside a longer text (line and column are computed from the shared text)
 		for i := 0; i < 6; i++ {
